@@ -781,6 +781,11 @@ func randDraw(method string, k types.BasicKind, bits uint8, global bool) externa
 			return mk(ts[0], k)
 		}
 		b := ex.consultPolicy(fr, method, global, 0)
+		if b == 1 {
+			// the only value below the bound: a concrete draw
+			ex.recordDraw(method, global, nil, ex.ctx.Const(w, 0))
+			return concreteOf(k, 0)
+		}
 		v := ex.freshVar(drawPrefix(global)+method, w)
 		if bits < w {
 			ex.assume(ex.ctx.Cmp(smt.OUlt, v, ex.ctx.Const(w, uint64(1)<<bits)))
@@ -807,6 +812,18 @@ func randDrawN(method string, k types.BasicKind, global bool) externalFn {
 		if ts := ex.reuseDraw(method, global, nt, 1); ts != nil {
 			return mk(ts[0], k)
 		}
+		if ex.drawPolicy != nil {
+			nn := -1
+			if !isSym(n) {
+				nn = int(asInt64(n))
+			}
+			if bb := ex.consultPolicy(fr, method, global, nn); bb == 1 {
+				ex.recordDraw(method, global, nt, c.Const(w, 0))
+				return concreteOf(k, 0)
+			} else if bb > 0 {
+				ex.pendingBound = bb
+			}
+		}
 		var v *smt.Term
 		if !isSym(n) && asInt64(n) > 0 && asInt64(n) < 1<<31 {
 			// concrete bound: a variable just wide enough, zero-extended
@@ -824,14 +841,9 @@ func randDrawN(method string, k types.BasicKind, global bool) externalFn {
 			v = ex.freshVar(drawPrefix(global)+method, w)
 			ex.assume(c.Cmp(smt.OUlt, v, nt))
 		}
-		if ex.drawPolicy != nil {
-			nn := -1
-			if !isSym(n) {
-				nn = int(asInt64(n))
-			}
-			if bb := ex.consultPolicy(fr, method, global, nn); bb > 0 {
-				ex.assume(c.Cmp(smt.OUlt, v, c.Const(w, uint64(bb))))
-			}
+		if ex.pendingBound > 0 {
+			ex.assume(c.Cmp(smt.OUlt, v, c.Const(w, uint64(ex.pendingBound))))
+			ex.pendingBound = 0
 		}
 		ex.recordDraw(method, global, nt, v)
 		return sym{v, k}
@@ -940,6 +952,16 @@ func randRead(global bool) externalFn {
 			for k := range p {
 				p[k] = mk(ts[k], types.Uint8)
 			}
+			return tuple{len(p), iface{}}
+		}
+		if b := ex.consultPolicy(fr, "Read", global, len(p)); b > 0 {
+			// the harness restricts this draw to zero bytes
+			var terms []*smt.Term
+			for k := range p {
+				p[k] = uint8(0)
+				terms = append(terms, ex.ctx.Const(8, 0))
+			}
+			ex.recordDraw("Read", global, ex.ctx.Const(64, uint64(len(p))), terms...)
 			return tuple{len(p), iface{}}
 		}
 		var terms []*smt.Term
